@@ -87,6 +87,8 @@ fn v2_config(rng: &mut Rng) -> GenCfg {
 struct Case {
     g: GenCfg,
     hists: Vec<(String, Vec<Ev>)>,
+    /// this configuration may be driven with bursts that overflow the 32-slot queue
+    overflow_ok: bool,
 }
 
 fn stress_config(rng: &mut Rng, fam: u64) -> GenCfg {
@@ -195,7 +197,7 @@ fn make_case(ctx: &Ctx, idx: u64) -> Case {
         hists.push(("all-down-all-up".to_string(), h));
         hists.push(("burst".to_string(), hist::burst(&mut rng, &keys, 2)));
         hists.push(("random".to_string(), hist::consistent(&mut rng, &keys, 120, &[0, 0, 1, 2, 10, 40], true)));
-        return Case { g, hists };
+        return Case { g, hists, overflow_ok: true };
     }
     let mut p = profile(&mut rng);
     // a quarter of the random configurations use the "plain" grammar (no action that goes through
@@ -236,7 +238,7 @@ fn make_case(ctx: &Ctx, idx: u64) -> Case {
         let h = if overflow_ok { h } else { cap_pending(h, 20) };
         hists.push((name.to_string(), h));
     }
-    Case { g, hists }
+    Case { g, hists, overflow_ok }
 }
 
 /// insert a 40-tick pause whenever more than `max` events would be pending without a tick
@@ -587,7 +589,24 @@ impl Check for C01Check {
             let mut max_wait = 0usize;
             let mut max_oneshot = 0usize;
             let mut max_macros = 0usize;
+            // the history as executed (with the pauses inserted by the throttle below)
+            let mut executed: Vec<Ev> = Vec::with_capacity(h.len() + 8);
             for e in h {
+                if !c.overflow_ok && !matches!(e, Ev::T(_)) {
+                    // Keep the event queue from overflowing on the full grammar: a pending
+                    // tap-hold / chord stops the queue from draining, so a static cap on the
+                    // history is not enough. Tick until there is room (bounded).
+                    let mut waited = 0u32;
+                    while sim.k.layout.b().queue.len() >= 24 && waited < 3000 {
+                        loop_tick(&mut sim);
+                        waited += 1;
+                    }
+                    if waited > 0 {
+                        executed.push(Ev::T(waited));
+                        out.inc("throttle_pauses");
+                    }
+                }
+                executed.push(e.clone());
                 match e {
                     Ev::T(n) => {
                         for _ in 0..*n {
@@ -658,7 +677,7 @@ impl Check for C01Check {
             }
             let witness = |sim: &Sim, extra: Value| {
                 let tail: Vec<String> = sim.trace.iter().rev().take(30).rev().map(|o| o.short()).collect();
-                json!({"config": c.g.text, "kinds": c.g.kinds_used.iter().copied().collect::<Vec<_>>(), "history_kind": hname, "history": render_hist(h), "drain_bound": bound, "os_model": sim.os.describe(), "is_idle": sim.is_idle(), "last_outputs": tail, "extra": extra,
+                json!({"config": c.g.text, "kinds": c.g.kinds_used.iter().copied().collect::<Vec<_>>(), "history_kind": hname, "history": render_hist(&executed), "drain_bound": bound, "os_model": sim.os.describe(), "is_idle": sim.is_idle(), "last_outputs": tail, "extra": extra,
                     "layout": {"queue": sim.k.layout.b().queue.len(), "states": format!("{:?}", sim.k.layout.b().states).chars().take(600).collect::<String>(), "waiting": sim.k.layout.b().waiting.is_some(), "oneshot_keys": sim.k.layout.b().oneshot.keys.len(), "active_sequences": sim.k.layout.b().active_sequences.len()}})
             };
             match settled_at {
